@@ -133,6 +133,11 @@ C13_Frames == (done /\ out # <<>> /\ out[Len(out)].k = "none") => (Norm(Yielded)
 C13_Prefix == IsPrefix(Norm(Yielded), Norm(WholeStreamFrames(input)))
 \* None and I/O error items end the run: they appear only last
 C13_TerminalLast == \A i \in 1..(Len(out) - 1) : out[i].k \notin {"none", "ioerr"}
+\* an I/O error is surfaced where it occurs: every frame completed by the bytes delivered before the failing read has
+\* been yielded before the error item (frames are not reordered around the error, none is held back behind it)
+C13_ErrAfterFrames ==
+  (out # <<>> /\ out[Len(out)].k = "ioerr") =>
+     Norm(Yielded) = Norm(Phase(SubSeq(input, 1, pos), FALSE, FALSE)[1])
 \* every run can go on until it is done
 C13_Progress == done \/ Outs(Cur, 1, NoHint) # {}
 \* a read error is yielded by the poll that met it
